@@ -73,13 +73,13 @@ theorem arctan_smono_int (a b : Int) (h : a < b) : arctan ((a : ℝ) / 65536) < 
   exact div_lt_div_of_pos_right this (by norm_num)
 
 /-- the common last step: `α` bracketed by two angles `lo ≤ hi` (up to ε), the result one of them -/
-theorem acc_core (α lo hi res : ℝ) (h1 : lo - 10 / 65536 ≤ α) (h2 : α ≤ hi + 10 / 65536) (hlh : lo ≤ hi)
+theorem idx_acc_core (α lo hi res : ℝ) (h1 : lo - 10 / 65536 ≤ α) (h2 : α ≤ hi + 10 / 65536) (hlh : lo ≤ hi)
     (hres : res = lo ∨ res = hi) : |res - α| ≤ hi - lo + 10 / 65536 := by
   rw [abs_le]
   rcases hres with h | h <;> rw [h] <;> constructor <;> linarith
 
 /-- from an angle error to the error of the index value -/
-theorem to_index_units (α ang bound : ℝ) (h : |ang - α| ≤ bound) (hb : bound ≤ 2 * π / 256 + 10 / 65536) :
+theorem idx_to_index_units (α ang bound : ℝ) (h : |ang - α| ≤ bound) (hb : bound ≤ 2 * π / 256 + 10 / 65536) :
     |ang * 128 / π - α * 128 / π| ≤ 125 / 100 := by
   have hpi := pi_gt_three
   have e : ang * 128 / π - α * 128 / π = (ang - α) * (128 / π) := by ring
@@ -111,7 +111,7 @@ theorem atanIndex_acc (v : Int) (hv : -9223372036854775808 < v ∧ v ≤ 9223372
     have e := idx_units idx 0
     simp only [zero_add, Int.cast_zero, zero_div, add_zero] at e
     rw [e]
-    apply to_index_units _ _ (2 * π / 256 + 10 / 65536) _ (le_refl _)
+    apply idx_to_index_units _ _ (2 * π / 256 + 10 / 65536) _ (le_refl _)
     by_cases hr0 : r = 0
     · -- v = 0
       have hi : idx = 0 := by rcases hidx with h | ⟨h, _⟩ <;> omega
@@ -148,7 +148,7 @@ theorem atanIndex_acc (v : Int) (hv : -9223372036854775808 < v ∧ v ≤ 9223372
         rcases hidx with h | ⟨_, h⟩
         · right; rw [h]
         · left; rw [h]
-      have := acc_core α _ _ _ hlo hhi (by push_cast; nlinarith) hres
+      have := idx_acc_core α _ _ _ hlo hhi (by push_cast; nlinarith) hres
       refine le_trans this ?_
       push_cast; nlinarith
   · rw [if_neg h0]
@@ -172,7 +172,7 @@ theorem atanIndex_acc (v : Int) (hv : -9223372036854775808 < v ∧ v ≤ 9223372
       obtain ⟨a1, a2⟩ := abs_le.mp ha
       have hlow := neg_pi_div_two_lt_arctan ((v : ℝ) / 65536)
       have hidx' : idx = 128 ∨ idx = 127 := by rcases hidx with h | ⟨_, h⟩ <;> omega
-      apply to_index_units _ _ (2 * π / 256 + 10 / 65536) _ (le_refl _)
+      apply idx_to_index_units _ _ (2 * π / 256 + 10 / 65536) _ (le_refl _)
       rw [abs_le]
       rcases hidx' with h | h <;> rw [h] <;> push_cast at a1 a2 ⊢ <;> constructor <;> nlinarith
     · have hr130 : 130 ≤ r := by omega
@@ -201,8 +201,8 @@ theorem atanIndex_acc (v : Int) (hv : -9223372036854775808 < v ∧ v ≤ 9223372
         rcases hidx with h | ⟨_, h⟩
         · right; rw [h]
         · left; rw [h]
-      apply to_index_units _ _ (2 * π / 256 + 10 / 65536) _ (le_refl _)
-      refine le_trans (acc_core α _ _ _ hlo hhi (by push_cast; nlinarith) hres) ?_
+      apply idx_to_index_units _ _ (2 * π / 256 + 10 / 65536) _ (le_refl _)
+      refine le_trans (idx_acc_core α _ _ _ hlo hhi (by push_cast; nlinarith) hres) ?_
       push_cast; nlinarith
 
 end FixedMath
